@@ -129,3 +129,162 @@ macro_rules! invalid {
         return $crate::engine::Verdict::Invalid(format!($($arg)*))
     };
 }
+
+use crate::engine::Verdict;
+use crate::factory::{MkErr, make_block};
+use crate::obj::{N_VIA, VIA_SCRIPT, VIA_SCRIPT_B2B};
+
+/// Conformance driver shared by C02 and C03: a history of
+///   blocks(n, via, p=script seed) | restart | clone | async(n bytes, via=3..5; last op only)
+/// on one block-mode object, compared step by step with `model(scn, input) -> (output, chaining)`.
+/// `enc_only`: additionally demand that no decrypt-direction block crosses the cipher seam
+/// during data processing.
+pub fn block_history(scn: &Scn, ctx: &mut Ctx, model: &dyn Fn(&Scn, &[u8]) -> (Vec<u8>, Vec<u8>), enc_only: bool) -> Verdict {
+    env_setup(scn, enc_only);
+    let mut obj = match make_block(&scn.mode, scn.bs, scn.cipher, &scn.key, &scn.iv, 0, 0) {
+        Ok(o) => o,
+        Err(MkErr::Unsupported) => invalid!("unsupported combination"),
+        Err(MkErr::Rejected) => violation!("construct", "inner_iv_init path rejected a correct key/iv"),
+    };
+    let g = obj.bs(); // data granularity (1 for CFB-8)
+    let units: usize = scn.ops.iter().filter(|o| o.k == "blocks").map(|o| o.n as usize).sum();
+    let tailbytes: usize = scn.ops.iter().filter(|o| o.k == "async").map(|o| o.n as usize).sum();
+    if units > 4096 || tailbytes > 65536 {
+        invalid!("too long");
+    }
+    if let Some(i) = scn.ops.iter().position(|o| o.k == "async") {
+        if i + 1 != scn.ops.len() {
+            invalid!("async must be the last operation");
+        }
+    }
+    let mut input = scn.bytes(0, units * g + tailbytes);
+    let honest = scn.num("honest");
+    if scn.mode.ends_with("dec") && honest > 0 && !input.is_empty() {
+        // an honest ciphertext of the pool data, produced by the *model* (it is only input here)
+        let mut s2 = scn.clone();
+        s2.mode = scn.mode.replace("dec", "enc");
+        input = model(&s2, &input).0;
+        if honest == 2 {
+            let bit = scn.num("flip") as usize % (input.len() * 8);
+            input[bit / 8] ^= 1 << (bit % 8);
+            ctx.fault("ciphertext_bit_flip");
+        }
+    } else if scn.mode.ends_with("dec") {
+        ctx.probe("dishonest_ciphertext");
+    }
+    let (want, _) = model(scn, &input);
+    sig_base(ctx, scn);
+    ctx.probe_if(scn.bs == 1, "bs1");
+    ctx.probe_if(scn.bs == 255, "bs255");
+    ctx.probe_if(scn.cipher == crate::factory::CK::SimEnc, "enc_only_cipher");
+    let mut done = 0usize; // bytes
+    let w = scn.pol[0].max_width() as u64;
+    for (i, op) in scn.ops.iter().enumerate() {
+        ctx.sig.s(&op.k);
+        let mut last_tail = false;
+        let mark = crate::simcipher::env_mark();
+        match op.k.as_str() {
+            "blocks" => {
+                let n = op.n as usize * g;
+                let via = op.via % N_VIA;
+                ctx.sig.u(via as u64);
+                ctx.sig.u(size_class(op.n, w));
+                let inp = &input[done..done + n];
+                let mut out = scn.dirt(done, n);
+                let st0 = crate::simcipher::env_stats();
+                obj.proc(via, op.p as u64, inp, &mut out);
+                let st1 = crate::simcipher::env_stats();
+                ctx.fp.bytes(&out);
+                let par = st1.par_groups - st0.par_groups;
+                // the modes do not forward tail calls: a tail shows up as single blocks after parallel groups
+                let tail = if par > 0 { st1.singles - st0.singles } else { 0 };
+                ctx.probe_if(par >= 2 && tail > 0, "par_groups_then_tail");
+                ctx.probe_if(par > 0, "par_group");
+                ctx.probe_if(via == VIA_SCRIPT || via == VIA_SCRIPT_B2B, "script_call");
+                last_tail = tail > 0;
+                if n > 0 {
+                    ctx.nontrivial = true;
+                }
+                let exp = &want[done..done + n];
+                if out != exp {
+                    let d = first_diff(&out, exp) / g;
+                    violation!(
+                        "output",
+                        "op {} ({} blocks via {}): output differs from the recurrence at block {} of the call (stream block {}): got {} want {}",
+                        i, op.n, via, d, done / g + d, hexs(&out[d * g..(d + 1) * g]), hexs(&exp[d * g..(d + 1) * g])
+                    );
+                }
+                done += n;
+            }
+            "restart" => {
+                if let Some(st) = obj.export() {
+                    drop(obj);
+                    obj = match make_block(&scn.mode, scn.bs, scn.cipher, &scn.key, &st, 0, 0) {
+                        Ok(o) => o,
+                        Err(_) => violation!("restart", "exported state of length {} rejected by inner_iv_init", st.len()),
+                    };
+                    ctx.probe("restart");
+                    ctx.fault("restart_from_exported_state");
+                }
+            }
+            "clone" => {
+                let c = obj.dup();
+                drop(obj);
+                obj = c;
+                ctx.probe("clone");
+            }
+            "async" => {
+                if !obj.has_async() {
+                    invalid!("no async interface");
+                }
+                let n = op.n as usize;
+                let kind = 3 + op.via % 3;
+                ctx.sig.u(kind as u64);
+                ctx.sig.u(((n % g.max(scn.bs) != 0) as u64) << 8 | (n / scn.bs.max(1)).min(3) as u64);
+                let inp = input[done..done + n].to_vec();
+                let mut out = scn.dirt(done, n);
+                let r = obj.finish(kind, 0, &inp, &mut out);
+                ctx.probe_if(n % scn.bs != 0, "async_partial_tail");
+                ctx.nontrivial |= n > 0;
+                if r != Ok(n) {
+                    violation!("async_len", "op {}: async one-shot on {} bytes returned {:?}", i, n, r);
+                }
+                ctx.fp.bytes(&out);
+                let exp = &want[done..done + n];
+                if out != exp {
+                    let d = first_diff(&out, exp);
+                    violation!("output", "op {} (async kind {} on {} bytes): byte {} differs: got {} want {}", i, kind, n, d, hexs(&out[d..]), hexs(&exp[d..]));
+                }
+                if enc_only {
+                    if let Some((ev, _)) = crate::simcipher::env_events(mark).iter().find(|(e, _)| e.dir == crate::simcipher::DEC) {
+                        violation!("decrypt_direction", "op {} (async): a block crossed the cipher seam in the decrypt direction (path {})", i, ev.path);
+                    }
+                }
+                return Verdict::Ok;
+            }
+            _ => invalid!("op kind {}", op.k),
+        }
+        if enc_only && op.k != "blocks" {
+            // exporting CFB's state legitimately uses D once: only data processing is constrained
+            crate::simcipher::env_clear_trace();
+        } else if enc_only {
+            if let Some((ev, _)) = crate::simcipher::env_events(mark).iter().find(|(e, _)| e.dir == crate::simcipher::DEC) {
+                violation!("decrypt_direction", "op {} ({}): a block crossed the cipher seam in the decrypt direction (path {})", i, op.k, ev.path);
+            }
+            crate::simcipher::env_clear_trace();
+        }
+        // chaining value after every operation (export itself is outside the seam window)
+        if let Some(st) = obj.export() {
+            let (_, chain) = model(scn, &input[..done]);
+            ctx.fp.bytes(&st);
+            ctx.probe_if(last_tail, "state_after_tail");
+            if st != chain {
+                violation!("state", "after op {} ({}): iv_state {} != model chaining value {} after {} blocks", i, op.k, hexs(&st), hexs(&chain), done / g);
+            }
+        }
+        if enc_only {
+            crate::simcipher::env_clear_trace();
+        }
+    }
+    Verdict::Ok
+}
